@@ -238,7 +238,10 @@ def addCommonImports (st : St) (isOptional requiresCustom isAliased : Bool) : St
     else st
   if isAliased || isOptional then addImport st kPydantic s%"Field" else st
 
-/-- `write_field` as a fact record plus the state update -/
+/-- `write_field` as a fact record plus the state update.  The type registered for function
+generation is the *unwrapped* `python_type` (`bytes` / `datetime`; since the `fix:` commit ab2f0e6 —
+before it the `Optional[..]`-wrapped field type of a defaulted field was registered, for which
+`json_translation_for_type` has no functions). -/
 def fieldFacts (E : Ext) (cfg : Cfg) (gens : List Str) (f : RustField) (st : St) : Outcome (PyField × St) :=
   let isOptional := f.ty.isOptional || f.hasDefault
   let notOptionalButDefault := !f.ty.isOptional && f.hasDefault
@@ -251,7 +254,7 @@ def fieldFacts (E : Ext) (cfg : Cfg) (gens : List Str) (f : RustField) (st : St)
   let (fieldType, st) := match custom with
     | some c =>
       (s%"Annotated[" ++ fieldType ++ s%", BeforeValidator(" ++ c.deserializationName ++
-        s%"), PlainSerializer(" ++ c.serializationName ++ s%")]", addCustom st fieldType)
+        s%"), PlainSerializer(" ++ c.serializationName ++ s%")]", addCustom st pythonType)
     | none => (fieldType, st)
   .ok ({ comments := f.comments, name, alias := if isAliased then some f.id.renamed else none,
          ty := fieldType,
@@ -478,8 +481,8 @@ def writeAllImports (st : St) : Str :=
   s%"from __future__ import annotations\n\n" ++ Str.intercalate nl imports ++ s%"\n\n" ++
     (if typeVars.isEmpty then nl else Str.intercalate nl typeVars ++ s%"\n\n\n")
 
-/-- the helper functions for the registered types that have a translation (a registered
-`Optional[bytes]` has none and is dropped by the `filter_map`) -/
+/-- the helper functions for the registered types that have a translation (everything registered
+is `bytes` or `datetime`, so the `filter_map` drops nothing) -/
 def writeCustomFns (st : St) : Str :=
   (st.customJson.filterMap jsonTranslation).flatMap fun c =>
     c.serializationContent ++ s%"\n\n" ++ c.deserializationContent ++ nl ++ nl
@@ -497,6 +500,12 @@ def writeItems (E : Ext) (cfg : Cfg) : List RustItem → St → Outcome (Str × 
     (writeItem E cfg it st).bind fun (a, st) =>
     (writeItems E cfg its st).bind fun (b, st) => .ok (a ++ b, st)
 
+/-- `if self.types_for_custom_json_translation.contains("datetime") { self.add_import("datetime", "datetime") }`
+(`fix:` commit 062e77e): the datetime translation functions mention `datetime` themselves, whatever
+Rust type was mapped to it -/
+def addDatetimeImport (st : St) : St :=
+  if st.customJson.contains s%"datetime" then addImport st s%"datetime" s%"datetime" else st
+
 /-- `Python::generate_types` for one output file; `st0` is the printer state left by the files
 generated before this one -/
 def generate (E : Ext) (cfg : Cfg) (d : ParsedData) (st0 : St) : Outcome (Str × St) :=
@@ -504,6 +513,7 @@ def generate (E : Ext) (cfg : Cfg) (d : ParsedData) (st0 : St) : Outcome (Str ×
   | none => .panic s%"topsort"
   | some items =>
     (writeItems E cfg items st0).bind fun (body, st) =>
+      let st := addDatetimeImport st
       .ok (beginFile cfg ++ writeAllImports st ++ writeCustomFns st ++ body, st)
 
 /-- all output files of one run, the printer state threaded through the crates in map order
